@@ -3,7 +3,6 @@
 __all__ = ['CSSPageRule']
 
 import xml.dom
-from itertools import chain
 
 import cssutils
 
@@ -258,7 +257,9 @@ class CSSPageRule(cssrule.CSSRuleRules):
             ):
                 # MarginRule
                 m = MarginRule(parentRule=self, parentStyleSheet=self.parentStyleSheet)
-                m.cssText = chain([token], g)
+                # (the tokens of this rule only: whatever goes wrong in it,
+                # the declarations that follow are not its business)
+                m.cssText = self._tokensupto2(g, token)
                 if not m.margin:
                     # malformed, ignored
                     continue
